@@ -229,6 +229,11 @@ func (r *runner) exec(op Op, res *Res) {
 		val(r.c.Get(op.Name))
 	case "getctx":
 		val(r.c.GetInContext(r.ctx(op.Ctx), op.Name))
+	case "getctxfree":
+		// a cancellable context that was never attached to the container
+		free, cancel := context.WithCancel(context.Background())
+		defer cancel()
+		val(r.c.GetInContext(free, op.Name))
 	case "param":
 		val(r.c.GetParam(op.Name))
 	case "tagged":
@@ -247,7 +252,7 @@ func (r *runner) exec(op Op, res *Res) {
 		} else {
 			res.OK = true
 		}
-	case "getter", "getterctx":
+	case "getter", "getterctx", "getterctxfree":
 		m := reflect.ValueOf(r.raw).MethodByName(op.Name)
 		if !m.IsValid() {
 			res.Missing = true
@@ -256,6 +261,11 @@ func (r *runner) exec(op Op, res *Res) {
 		var in []reflect.Value
 		if op.Op == "getterctx" {
 			in = []reflect.Value{reflect.ValueOf(r.ctx(op.Ctx))}
+		}
+		if op.Op == "getterctxfree" {
+			free, cancel := context.WithCancel(context.Background())
+			defer cancel()
+			in = []reflect.Value{reflect.ValueOf(free)}
 		}
 		if m.Type().NumIn() != len(in) {
 			res.Err = "unexpected signature " + m.Type().String()
